@@ -379,6 +379,26 @@ def evaluate(case, native):
                 if ok:
                     return True, f'evaluator returned Failure although inserting the job at leg {p} is feasible in simulation'
         return False, 'failure is consistent with the simulation (multi-task failure may be incomplete by design)'
+    if kind == 'tour_order':
+        def greater(a, b):
+            return (a['kind'] == 'value' and b['kind'] == 'value' and a['value'] > b['value']) or (a['kind'] == 'default' and b['kind'] == 'value')
+
+        def ordered(seq):
+            return not any(greater(seq[i], seq[j]) for i in range(len(seq)) for j in range(i + 1, len(seq)))
+        tour = [j['order'] for j in jobs]
+        tgt = target['order']
+        if not ordered(tour):
+            return False, 'pre-tour not ordered in the model (assumption violated): not a counterexample'
+        v = native['evaluate_order']
+        accepted = v is None
+        post = ordered(tour[:leg] + [tgt] + tour[leg:])
+        if accepted != post:
+            return True, f'order constraint accepted={accepted} but the tour with the target at leg {leg} is ordered={post} (orders {tour}, target {tgt})'
+        if v and v.get('stopped'):
+            for q in range(leg, len(tour) + 1):
+                if ordered(tour[:q] + [tgt] + tour[q:]):
+                    return True, f'violation flagged stopped at leg {leg} although position {q} keeps the order (orders {tour}, target {tgt})'
+        return False, 'order verdict agrees with the reference'
     if kind == 'route_gates':
         tws = case['route_job']['tws']
         s0, s1 = val(case['shift_start']), val(case['shift_end'])
